@@ -22,7 +22,14 @@ def _extra(stats, cov):
                 large_plans_validated=stats.get('scale_plans_validated', 0),
                 large_plan_actions_validated=stats.get('scale_actions_validated', 0),
                 large_plans_with_branch_index_ge_65536=stats.get('scale_plans_with_branch_index_ge_65536', 0),
-                large_runs_judged=stats.get('scale_runs', 0), large_run_calls_judged=stats.get('scale_calls_judged', 0))
+                large_runs_judged=stats.get('scale_runs', 0), large_run_calls_judged=stats.get('scale_calls_judged', 0),
+                # round 4 (content of values): real hashes that share a prefix (nonce search), commit dates beyond the wall clock
+                runs_with_twin_hashes=stats.get('runs_with_twin_hashes', 0),
+                twin_pairs_sharing_8_or_more_hex_digits=stats.get('twin_pairs_sharing_8_or_more_hex_digits', 0),
+                twin_pairs_sharing_5_to_7_hex_digits=stats.get('twin_pairs_sharing_5_to_7_hex_digits', 0),
+                runs_with_commit_dates_in_the_future_or_at_the_ends_of_the_domain=stats.get(
+                    'runs_with_commit_dates_in_the_future_or_at_the_ends_of_the_domain', 0),
+                runs_with_zone_offsets_and_odd_names=stats.get('runs_with_zone_offsets_author_date_differing_and_odd_names', 0))
 
 
 CONFIG = dict(
@@ -54,6 +61,15 @@ CONFIG = dict(
          'that merges join distinct live branches with the same last commit; the ancestor-set clauses are beyond it) and the '
          'driver checks that every commit of the (connected) history is analysed. fast_c02 also runs on every small plan (it must '
          'accept what plan_ok accepts: C02_fast_accepts_what_plan_ok_accepts; a disagreement is a MISMATCH). '
+         'CONTENT of the fabricated values (round 4, harness/cmd/c02/r4.go): field hst = hash style - WHERE the hashes differ, their byte order '
+         'stays the field ranks: 0 the rank in the 4 leading bytes (earlier rounds); off + 100*b + 10000*tail: b = 0 all hashes share their first '
+         'off hex digits (1, 2, 4, 7, 8, 14, 16, 32) and the rank follows, b > 0 groups of 2^b neighbours in byte order share the first off '
+         '(8, 16, 32) hex digits, tail = 1 pseudo-random digits after the rank (else a common suffix); 99999 pseudo-random 160-bit values '
+         'sorted; hashes outside the set share the prefix too. Every <=5-commit DAG meets every style as the hash order varies (<=4 commits '
+         'are swept 4..16 times), three quarters of the sampled / random / wide / ffdeep cases draw one, the scale cases cycle through them. '
+         'times modes 7..11: commits dated 2100, 36 h after the moment of generation, before 1970, at the ends of the domain (Unix 0, -1, '
+         '2^31-1, 2^31, 2^32, 9999-12-31, year 1), the whole history in the future; tzm = 1: non-zero zone offsets and author date != '
+         'committer date. scale-starmerge of 9/10/11, 99/100/101, 999/1000/1001 children (decimal widths of branch indexes). '
          'Non-trivial = some commit has two distinct parents (scale: always); distinct = distinct input fields. '
          'EXECUTION stream (c02run): one case = one commit graph (same format; the hashes are those of a real in-memory go-git '
          'repository, salt = message salt that varies them) + hibernation distance 0..3 + slice order; the real '
@@ -71,6 +87,18 @@ CONFIG = dict(
          'thorough 10^4 in seven shapes and > 2^16 branches as star / comb / diamonds) run with a light recording item (instance '
          'ids, no sets); the call log (root, Fork -> clones, Consume, Merge) is read as a plan over instance ids and judged by '
          'fast_c02 against the commit graph, and every commit must be consumed. '
+         'CONTENT of the values (round 4, harness/cmd/c02run/r4.go): tmode % 100 in 7..11 = committer dates 2100-01-01 for a few commits / 36 h '
+         'after the moment the harness runs for a few / every commit after now / the ends of the domain (1970-01-01 00:00:00 and :01, 2^31-1, '
+         '2^31, 2^32-1, 2^32, 9999-12-31) with ties / alternately one hour before and after now; tmode / 100 = 1: zone offsets +14:00, -12:00, '
+         '+05:45, -03:30 .., author date earlier / later / ten years off the committer date, author != committer, names and e-mails with '
+         'invalid UTF-8, U+FFFD, BOM, tab, NBSP, U+2028, U+3000, NUL, case variants, id+user@users.noreply.github.com. Every mode x zone mode is '
+         'drawn in every family incl. reuse-*; exfut<n>: every DAG on <=5 commits with a mode 7..11 x distance x DumpPlan / PrintActions x zone '
+         'mode. twins-ex<n> / twins (field twins = (a b k) per pair, obs twinhashes = the two hashes and the number of leading hex digits they '
+         'share): two commits - two distinct parents of each merge, sometimes two arbitrary commits (roots, siblings, a commit and a '
+         'descendant) - get GENUINE SHA-1 hashes that agree in their first k hex digits, by a nonce in the commit message (birthday search; a '
+         'descendant is searched alone, k <= 4): every DAG on <=5 commits that has a merge with k = 4 (every 41st and thorough: 8), '
+         'multi-root / random / wide histories with k in 1..8, x distance x options x timestamp modes. scale-starmerge 9/10/11, 99/100/101 '
+         'children with the plan dump and the action trace on (decimal widths). '
          'reuse-* (object lifecycle, harness/cmd/c02run/reuse.go): ONE Pipeline object and the SAME two item instances analyse several commit '
          'selections of one repository one after the other (fields sels = (sel mode opts dist commits-in-slice-order) per run, obs runs = one '
          'pair of logs per run); EVERY run is judged like the run of a fresh pipeline: exec_ok against the history restricted to the commits '
@@ -95,7 +123,10 @@ CONFIG = dict(
     assumptions=['commits are numbered so that parents have smaller numbers (every finite DAG has such a numbering; the '
                  'validator checks it) and the graph given to the validator is the history restricted to the analysed commit set',
                  'prepareRunPlan reads only Hash and ParentHashes of a commit (fabricated commits are used; Committer.When / '
-                 'Author.When are set and varied so that a planner that starts reading them is exposed)',
+                 'Author.When are set and varied - incl. dates after the wall clock, before 1970 and zone offsets - so that a planner '
+                 'that starts reading them is exposed; the hashes are varied in WHERE they differ, not only in their order)',
+                 'timestamp modes 8, 9, 11 of the execution stream are relative to time.Now() of the harness run: a replay regenerates '
+                 'them relative to the moment of the replay',
                  'large histories (family scale) are judged by fast_c02, a NECESSARY condition of C02 (C02_fast_necessary), plus '
                  '"every commit analysed"; the ancestor-set clauses of C02 are checked by plan_ok / exec_ok on graphs of up to ~150 commits only',
                  'no Gallina mirror of the planner: C02 is decided per produced plan (translation validation), not by a proof '
